@@ -64,6 +64,30 @@ NOTES = {
     "C19-f": "first miss: the network seam replaced `url_to_file` itself -> H7: the real `url_to_file` over a fake response cut after k bytes",
     "C20-e": "first miss: no Inset items -> `inset` item (needs an open process; stays in the remaining annotation)",
     "C20-f": "first miss: Onset with content group only in the thorough menu -> in the quick menu",
+    # fourth wave
+    "C01-g": "first miss: each schema object used under one prefix only -> E2 prefix histories on one schema object (verdicts before / under / after a prefix change)",
+    "C01-h": "first miss: no Def-expand carrying a value its definition does not take -> `def-expand-extra-value` fault kind with its published code",
+    "C03-g": "first miss: no value with a colon followed by a slash -> value `/a:b/c d`",
+    "C03-h": "first miss: the base-tag setter was never driven -> `rebase_check`: setting `short_base_tag` to its own value (plain and prefixed tags) changes no form",
+    "C04-g": "first miss: Def-expand groups always led with the tag -> reserved family entries with the contents group before `Def-expand/...`",
+    "C04-h": "first miss: at most one faulty Def per annotation -> entries with an unknown `Def/Nope` placed before / after sound ones (every sibling order)",
+    "C05-g": "first miss: every `#` node of the edit alphabet carried takesValue -> edit `add-value-taking-node:no-takesValue`",
+    "C05-h": "first miss: multi-valued attributes compared as joined text -> STRICT_VALUE_LISTS: one XML element per value, compared as lists",
+    "C07-g": "first miss: input objects were validated once -> F10 edit histories (in-place cell / column edits between assemblies and validations)",
+    "C07-h": "first miss: `Delay` written in one case -> `Delay` / `DELAY` / `delay` in F4",
+    "C08-h": "first miss: at most one `#` per tag -> two `#` in one tag (`Label/##`, `Label/#-#`)",
+    "C09-h": "first miss: definitions whose sorted order does not depend on the value -> `(Label/#, Label/m)` and `((Speed/# mph, Square), (Speed/5 mph, Triangle))` with values either side of the sibling",
+    "C10-g": "first miss: rows of one time point always differed in text -> byte-identical rows at one time point",
+    "C10-h": "first miss: default error handler only -> the same files with `check_for_warnings=True` (rows with warnings only stay in the time-ordered pass)",
+    "C11-h": "first miss: one schema order per process -> `order_check`: ORDER_FILES forward / reverse in sub-processes (`core.hash_sweep`)",
+    "C13-g": "first miss: values without `:` ... `/` -> `Description/a:b/c`, `ID/run:1/2` in the text pool",
+    "C13-h": "first miss: lower-case prefixes only -> `Tl:` / `SC:` assigned in the first pairing",
+    "C14-h": "first miss: either duplicate code accepted -> SCHEMA_DUPLICATE_NODE required for a duplicate inside one library section",
+    "C16-g": "first miss: every sidecar had a column-level HED key -> a lone root sidecar whose only HED keys sit inside `Levels`",
+    "C17-g": "first miss: rename maps without overlap of old and new names -> swap `a<->b` and chain `a->b, b->c`",
+    "C17-h": "first miss: two-column keys never concatenated to equal text -> `('a','12')` vs `('a1','2')` keys with tables holding both",
+    "C18-h": "first miss: backups stayed complete -> a recorded copy (or its directory) removed before a new manager is built",
+    "C19-h": "first miss: at most two refresh attempts per directory -> every history of <= 4 gaps from {1 s, T-1, T, 2T} against a one-number model",
 }
 
 
